@@ -80,6 +80,14 @@ def run(prog: Program, rep: Report, tier: str):
     # (stick_the_landing, n_contrastive, ...) selects the compiled estimator only if equality distinguishes it
     from .staticeq import rule_static_eq
     rule_static_eq(prog, rep, "C17.static-eq", only=lambda c: c.module.name == "flowjax.train.losses", minimum=4)
+    # "the same value with or without stick-the-landing": one branch takes the log-density from sample_and_log_prob,
+    # the other from log_prob at the sample.  For the flows the loss is used with, the two agree only while the
+    # transformed distribution's cores are wired as change of variables and a masked autoregressive conditioner is
+    # strictly autoregressive at every depth (else the forward and the inverse direction are different maps)
+    from .c03 import rule_wire
+    rule_wire(prog, rep, "C17.elbo-paths")
+    from .c09 import rule_made_masks
+    rule_made_masks(prog, rep, R="C17.elbo-made")
     if tier == "thorough":
         from ..audit import audit_generic
         audit_generic(prog, rep, "C17")
